@@ -36,6 +36,17 @@ Proof.
   rewrite (fold_left_snoc proj upd xs a Hp Hu). reflexivity.
 Qed.
 
+(* rewrite a stuck [set_children] with a lemma whose statement is convertible
+   to (not syntactically equal to) the subterm *)
+Ltac rw_children H :=
+  match goal with
+  | |- context [set_children ?fs ?k ?a] =>
+      let T := type of H in
+      match T with
+      | _ = ?rhs => rewrite (H : set_children fs k a = rhs)
+      end
+  end.
+
 (* ================= roster.Item ================= *)
 
 Definition ritem_upd (l : list bytes) (v : ritem) : ritem := mkritem (r_jid v) (r_name v) (r_sub v) l.
@@ -182,10 +193,9 @@ Proof.
     rewrite wire1_elem, !unmarshal_struct_elem. cbn. rewrite (jid_attr_canon o j _ Hj). cbn. split; reflexivity.
   - set (r' := if is_nil r then reason_spam else r). split.
     + rewrite unmarshal_struct_elem. cbn. rewrite (jid_attr_canon o j _ Hj). cbn.
-      change [ "t"%byte; "e"%byte; "x"%byte; "t"%byte ] with (str "text").
-      rewrite (report_kids_tok o ids text (mkbitem j r' [] []) Hf eq_refl eq_refl). reflexivity.
+      rw_children (report_kids_tok o ids text (mkbitem j r' [] []) Hf eq_refl eq_refl). reflexivity.
     + rewrite wire1_elem. cbn [ln nspace nlocal is_nil app flat_map]. rewrite wire_elem.
-      cbn [report_name nspace nlocal is_nil app merge_text].
+      cbn [report_name nspace nlocal is_nil app merge_text]. change (is_nil ns_reporting) with false. cbv iota.
       rewrite flat_map_app, (wire_map ns_reporting sid_tr wsid) by (intro; apply wire_sid).
       assert (Et : flat_map (wire ns_reporting) (opt_leaf (str "text") text) =
                    if is_nil text then [] else [wleaf ns_reporting (str "text") text]).
@@ -193,4 +203,145 @@ Proof.
       rewrite Et. rewrite (merge_text_elems (map wsid ids ++ _)).
       2:{ rewrite forallb_app, is_elem_map by reflexivity. destruct text; reflexivity. }
       rewrite unmarshal_struct_elem. cbn. rewrite (jid_attr_canon o j _ Hj). cbn.
-      Show.
+      rw_children (report_kids_wire o ids text (mkbitem j r' [] []) Hf eq_refl eq_refl). reflexivity.
+Qed.
+
+Definition bitem_els := [ln (str "item"); report_name; sid_name; ln (str "text")].
+Definition bitem_ats := [ln (str "jid"); ln (str "reason"); ln (str "id"); ln (str "by")].
+
+Lemma bitem_wellformed : wellformed bitem_c bitem_els bitem_ats.
+Proof.
+  wf. cbn [forallb]. rewrite andb_true_r. destruct v as [j r ids text]. unfold bitem_tr; cbn [b_jid b_reason b_ids b_text].
+  destruct (is_nil r && is_nil ids && is_nil text); [reflexivity|].
+  rewrite names_within_elem. cbn [forallb]. rewrite names_within_elem, forallb_app, forallb_map.
+  rewrite (forallb_true (fun x => names_within bitem_els bitem_ats (sid_tr x))) by (intro; reflexivity).
+  unfold opt_leaf. destruct text; reflexivity.
+Qed.
+
+Lemma bitem_dec_total : dec_total bitem_c.
+Proof.
+  intros o t H. apply unmarshal_struct_safe. unfold bitem_fields. fsafe.
+  apply mkfield_safe. intros t' a. apply unmarshal_struct_safe. unfold report_fields. fsafe.
+  apply f_sub_safe. intro t''. apply sid_un_safe; exact H.
+Qed.
+
+(* ================= crypto: Hash, HashOutput ================= *)
+
+Definition hash_known (h : N) : Prop := exists n, hash_name h hash_table = Some n.
+
+Lemma hash_table_inverse :
+  forallb (fun p => match hash_parse (snd p) hash_table with Some k => N.eqb k (fst p) | None => false end) hash_table = true.
+Proof. vm_compute. reflexivity. Qed.
+
+Lemma hash_name_in h n t : hash_name h t = Some n -> In (h, n) t.
+Proof.
+  induction t as [|[k m] r IH]; cbn; [discriminate|]. destruct (N.eqb k h) eqn:E.
+  - intro H; inversion H; subst. apply N.eqb_eq in E. subst. left; reflexivity.
+  - intro H. right. apply IH. exact H.
+Qed.
+
+(* the table of names is one to one: parsing a written name gives the hash back *)
+Lemma hash_parse_name h n : hash_name h hash_table = Some n -> hash_parse n hash_table = Some h.
+Proof.
+  intro H. apply hash_name_in in H.
+  pose proof (proj1 (forallb_forall _ _) hash_table_inverse _ H) as K. cbn [fst snd] in K.
+  destruct (hash_parse n hash_table) as [k|]; [|discriminate]. apply N.eqb_eq in K. subst. reflexivity.
+Qed.
+
+Lemma hash_names_nonempty h n : hash_name h hash_table = Some n -> n <> [].
+Proof.
+  intro H. apply hash_name_in in H. intro E. subst.
+  assert (K : forallb (fun p => negb (is_nil (snd p))) hash_table = true) by (vm_compute; reflexivity).
+  pose proof (proj1 (forallb_forall _ _) K _ H) as K'. discriminate.
+Qed.
+
+Arguments hash_parse : simpl never.
+Arguments hash_name : simpl never.
+
+Lemma hash_roundtrip : roundtrip hash_c (fun _ h => hash_known h) (fun h => h).
+Proof.
+  intros o h [n Hn]. unfold hash_c, c_enc, c_dec, hash_tr, hash_un. rewrite Hn. eexists; split; [reflexivity|].
+  cbn. rewrite (hash_parse_name h n Hn). split; reflexivity.
+Qed.
+
+(* outside the table TokenReader panics, as documented *)
+Lemma hash_enc_panics o h : hash_name h hash_table = None -> c_enc hash_c o h = Panic.
+Proof. intro H. unfold hash_c, c_enc, hash_tr. rewrite H. reflexivity. Qed.
+
+Definition hash_els := [mkname ns_hashes (str "hash-used"); mkname ns_hashes (str "hash")].
+
+Lemma hash_wellformed : wellformed hash_c hash_els [ln (str "algo")].
+Proof.
+  intros o v ts E. unfold hash_c, c_enc, hash_tr in E. destruct (hash_name v hash_table); [|discriminate].
+  inversion E; subst. apply forest_wellformed_intro; reflexivity.
+Qed.
+
+Lemma hash_algo_safe a : safe (hash_algo a).
+Proof. unfold hash_algo. destruct (attr_local _ _); [|exact I]. destruct (hash_parse _ _); exact I. Qed.
+
+Lemma hash_dec_total : dec_total hash_c.
+Proof. intros o t _. destruct t; cbn; try exact I. apply hash_algo_safe. Qed.
+
+(* HashOutput: an empty output is written as an empty element, which the
+   decoder rejects (pinned by the package's tests): the round trip holds for
+   non-empty outputs *)
+Definition hashout_dom (o : oracles) (v : hashout) : Prop :=
+  hash_known (ho_hash v) /\ ho_out v <> [] /\ o_b64dec o (b64enc (ho_out v)) = Ok (ho_out v).
+
+Lemma b64enc_nonnil s : s <> [] -> b64enc s <> [].
+Proof. destruct s as [|a [|b [|c r]]]; cbn; intros H E; try discriminate. contradiction. Qed.
+
+Lemma hashout_un_tree o v t : hashout_dom o v -> hashout_tree v = Ok t ->
+  hashout_un o t = Ok v /\ (forall ns, exists t', wire ns t = [t'] /\ hashout_un o t' = Ok v).
+Proof.
+  destruct v as [h out]. intros [[n Hn] [Hne Hb]]. cbn in Hn, Hne, Hb.
+  unfold hashout_tree; cbn [ho_hash ho_out]. rewrite Hn. intro E; inversion E; subst; clear E.
+  pose proof (b64enc_nonnil out Hne) as Hbn. pose proof (hash_parse_name h n Hn) as Hp.
+  split.
+  - cbn. rewrite Hp. cbn. destruct (b64enc out) eqn:Eb; [contradiction|]. cbn. rewrite Hb. reflexivity.
+  - intro ns. eexists; split; [reflexivity|]. cbn. rewrite Hp. cbn.
+    destruct (b64enc out) eqn:Eb; [contradiction|]. cbn. rewrite Hb. reflexivity.
+Qed.
+
+Lemma hashout_roundtrip : roundtrip hashout_c hashout_dom (fun v => v).
+Proof.
+  intros o v H. destruct (hashout_tree v) as [t| | |] eqn:E.
+  - exists t. unfold hashout_c, c_enc, c_dec. rewrite E. split; [reflexivity|].
+    destruct (hashout_un_tree o v t H E) as [H1 H2]. split; [exact H1|].
+    destruct (H2 []) as [t' [Hw Hd]]. unfold wire1. rewrite Hw. exact Hd.
+  - exfalso. destruct H as [[n Hn] _]. unfold hashout_tree in E. rewrite Hn in E. discriminate.
+  - exfalso. destruct H as [[n Hn] _]. unfold hashout_tree in E. rewrite Hn in E. discriminate.
+  - exfalso. destruct H as [[n Hn] _]. unfold hashout_tree in E. rewrite Hn in E. discriminate.
+Qed.
+
+(* with an empty output the element is written with an empty character data
+   token: a decoder fed the token stream accepts it, but on the wire the element
+   is empty and the decoder rejects it (known finding
+   C19/crypto.HashOutput/roundtrip/error:empty-output) *)
+Lemma hashout_empty_paths_differ o h n : hash_name h hash_table = Some n ->
+  exists t, c_enc hashout_c o (mkhashout h []) = Ok [t] /\
+            c_dec hashout_c o t = Ok (mkhashout h []) /\ c_dec hashout_c o (wire1 t) = Err.
+Proof.
+  intro Hn. unfold hashout_c, c_enc, c_dec, hashout_tree; cbn [ho_hash ho_out]. rewrite Hn.
+  eexists; split; [reflexivity|]. cbn. rewrite (hash_parse_name h n Hn). cbn. split; reflexivity.
+Qed.
+
+Lemma hashout_tree_names v t : hashout_tree v = Ok t -> names_within hash_els [ln (str "algo")] t = true.
+Proof. unfold hashout_tree. destruct (hash_name _ _); [|discriminate]. intro E; inversion E; subst. reflexivity. Qed.
+
+Lemma hashout_wellformed : wellformed hashout_c hash_els [ln (str "algo")].
+Proof.
+  intros o v ts E. unfold hashout_c, c_enc in E. destruct (hashout_tree v) eqn:Et; try discriminate.
+  cbn in E. inversion E; subst. apply forest_wellformed_intro; try reflexivity.
+  cbn [forallb]. rewrite (hashout_tree_names v a Et). reflexivity.
+Qed.
+
+Lemma hashout_un_safe o t : or_safe o -> safe (hashout_un o t).
+Proof.
+  intro H. destruct t as [n a k|b|k b]; cbn; try exact I.
+  apply bind_safe; [apply hash_algo_safe|]. intro h. destruct k as [|[]]; try exact I.
+  apply bind_safe; [|intro; exact I]. destruct (is_nil b); [exact I|apply (os_b64 o H)].
+Qed.
+
+Lemma hashout_dec_total : dec_total hashout_c.
+Proof. intros o t H. apply hashout_un_safe; exact H. Qed.
